@@ -104,6 +104,15 @@ def check_table(ctx, case):
         ctx.cls("table|seeded")
     else:
         ctx.cls("table|seed None")
+    if seed is not None:
+        import contextlib
+        import io
+        with contextlib.redirect_stdout(io.StringIO()):
+            loud = monitored(dsw.create_random_shuffles, 400 * n + 5000, k, seed, verbose=True)
+        if loud.kind != "ok" or not np.array_equal(np.asarray(loud.value), t):
+            ctx.fail("progress-output-changes-table", "create_random_shuffles(%d, %r, verbose=True) %s" % (
+                k, seed, loud.describe() if loud.kind != "ok" else "differs from the table without progress output"))
+        ctx.cls("table|with progress output")
     if sorted(map(tuple, t.tolist())) == [tuple(t[0].tolist())] * n and n > 4:
         ctx.cls("all rows identical (evidence only)")
     ctx.setadd("distinct-rows", {tuple(r) for r in t.tolist()})
